@@ -401,7 +401,7 @@ Definition pml_guarded_only : pml_variant :=
 Lemma restored_without_ancestors_refuted : exists t fp ff, ~ behaviour_preserved pml_guarded_only t 7 13 fp ff.
 Proof. exists w_restored_without_ancestors, 20, 40. refute. Qed.
 Lemma restored_without_ancestors_unguarded : behaviour_preserved pml_repaired w_restored_without_ancestors 7 13 20 40.
-Proof. holds. Qed.
+Proof. unfold behaviour_preserved; vm_compute; intros _ _; reflexivity. Qed.
 (* a document without transitions: the model never comes to rest, the interpreter goes idle after the initial step *)
 Lemma no_transitions_refuted : exists t fp ff, ~ behaviour_prefix pml_as_written t 7 13 fp ff.
 Proof.
